@@ -54,7 +54,7 @@ class C14(Prop):
         'msg_digest_too_long', 'headerByte_eq_spec', 'header_range', 'header_roundtrip', 'headerDecode_eq_spec',
         'header_decode_encode', 'recoverCompact_length', 'verify_true_only_if', 'verify_true_if',
         'verify_false_other', 'recover_correct', 'verify_recovered', 'signCompact_layout',
-        'signCompact_error', 'recover_eq_reference')]
+        'signCompact_error')]
     anchors = [('bitcoin/signmessage.py', 'VerifyMessage'), ('bitcoin/signmessage.py', 'SignMessage'),
                ('bitcoin/signmessage.py', 'BitcoinMessage'), ('bitcoin/core/key.py', 'CECKey.sign_compact'),
                ('bitcoin/core/key.py', 'CECKey.recover'), ('bitcoin/core/key.py', 'CPubKey.recover_compact'),
